@@ -57,15 +57,21 @@ def trimWs (s : List Char) : List Char := (trimStartWs (trimStartWs s).reverse).
 
 /-! ### JSX text cleaning (`util::transform_text`) -/
 
+/-- put a character in front of the first line -/
+def consHead (x : Char) : List (List Char) → List (List Char)
+  | [] => [[x]]
+  | l :: ls => (x :: l) :: ls
+
+/-- line splitter as a scanner; `afterCR` = the previous character was a CR (a following LF belongs to it) -/
+def splitAux : Bool → List Char → List (List Char)
+  | _, [] => [[]]
+  | afterCR, x :: xs =>
+    if x == '\n' then (if afterCR then splitAux false xs else [] :: splitAux false xs)
+    else if x == '\r' then [] :: splitAux true xs
+    else consHead x (splitAux false xs)
+
 /-- split at JSX line breaks: `\r\n`, `\n`, `\r`; always at least one line -/
-def splitLines : List Char → List (List Char)
-  | [] => [[]]
-  | '\r' :: '\n' :: xs => [] :: splitLines xs
-  | x :: xs =>
-    if x == '\n' || x == '\r' then [] :: splitLines xs
-    else match splitLines xs with
-      | [] => [[x]]        -- unreachable
-      | l :: ls => (x :: l) :: ls
+def splitLines (s : List Char) : List (List Char) := splitAux false s
 
 def tabToSpace (c : Char) : Char := if c == '\t' then ' ' else c
 
